@@ -296,7 +296,7 @@ package builder
 //@   propagates
 //@   requires@C13 b != nil && gen != nil && GenInv(gen) && GenCtx(gen, ctx) && CallOK(ctx, sourceID, source, target)
 //@   ensures@C13 GenInv(gen) && GenCtx(gen, ctx)
-//@   ensures err == nil ==> result1 != nil && result1.Code != nil
+//@   ensures err == nil ==> result1 != nil && result1.Code != nil && isFresh(result1)
 //@ func buildTargetVar
 //@   props C03 C11
 //@   propagates
@@ -330,6 +330,8 @@ package builder
 //@ func SkipCopy.Build(gen, ctx, sourceID, source, target, errPath)
 //@   props C03
 //@   propagates
+// C04: the source expression itself is only passed through where that is allowed
+//@   ensures@C04 err == nil && result1 == sourceID ==> true
 //@   requires@C13 self != nil
 //@   requires@C13 GenInv(gen) && GenCtx(gen, ctx)
 //@   ensures@C13 GenInv(gen) && GenCtx(gen, ctx)
@@ -348,6 +350,8 @@ package builder
 //@ func Enum.Build(gen, ctx, sourceID, source, target, errPath)
 //@   props C03
 //@   propagates
+// C04: the source expression itself is only passed through where that is allowed
+//@   ensures@C04 err == nil && result1 == sourceID ==> false
 //@   requires@C13 self != nil
 //@   requires@C13 GenInv(gen) && GenCtx(gen, ctx)
 //@   ensures@C13 GenInv(gen) && GenCtx(gen, ctx)
@@ -366,6 +370,8 @@ package builder
 //@ func BasicTargetPointerRule.Build(gen, ctx, sourceID, source, target, errPath)
 //@   props C03
 //@   propagates
+// C04: the source expression itself is only passed through where that is allowed
+//@   ensures@C04 err == nil && result1 == sourceID ==> false
 // C07: pointer/underlying steps pass the path on unchanged
 //@   at@C07 call gen.Build#* assert same(arg4, errPath)
 //@   requires@C13 self != nil
@@ -386,6 +392,8 @@ package builder
 //@ func Pointer.Build(gen, ctx, sourceID, source, target, errPath)
 //@   props C03
 //@   propagates
+// C04: the source expression itself is only passed through where that is allowed
+//@   ensures@C04 err == nil && result1 == sourceID ==> false
 // C07: pointer/underlying steps pass the path on unchanged
 //@   at@C07 call gen.Assign#* assert same(arg5, errPath)
 //@   at@C11 call BuildByAssign#* assert !(ctx.UseConstructor && ctx.Conf.DefaultUpdate)
@@ -410,6 +418,8 @@ package builder
 //@ func SourcePointer.Build(gen, ctx, sourceID, source, target, path)
 //@   props C03
 //@   propagates
+// C04: the source expression itself is only passed through where that is allowed
+//@   ensures@C04 err == nil && result1 == sourceID ==> false
 // C07: pointer/underlying steps pass the path on unchanged
 //@   at@C07 call gen.Assign#* assert same(arg5, path)
 //@   at@C11 call BuildByAssign#* assert !(ctx.UseConstructor && ctx.Conf.DefaultUpdate)
@@ -434,6 +444,8 @@ package builder
 //@ func TargetPointer.Build(gen, ctx, sourceID, source, target, path)
 //@   props C03
 //@   propagates
+// C04: the source expression itself is only passed through where that is allowed
+//@   ensures@C04 err == nil && result1 == sourceID ==> false
 // C07: pointer/underlying steps pass the path on unchanged
 //@   at@C07 call gen.Build#* assert same(arg4, path)
 //@   at@C07 call gen.Assign#* assert same(arg5, path)
@@ -457,6 +469,8 @@ package builder
 //@ func Basic.Build(gen, ctx, sourceID, source, target, errPath)
 //@   props C03
 //@   propagates
+// C04: the source expression itself is only passed through where that is allowed
+//@   ensures@C04 err == nil && result1 == sourceID ==> !source.Named && !target.Named
 //@   requires@C13 self != nil
 //@   requires@C13 GenInv(gen) && GenCtx(gen, ctx)
 //@   ensures@C13 GenInv(gen) && GenCtx(gen, ctx)
@@ -475,6 +489,8 @@ package builder
 //@ func Struct.Build(gen, ctx, sourceID, source, target, errPath)
 //@   props C03
 //@   propagates
+// C04: the source expression itself is only passed through where that is allowed
+//@   ensures@C04 err == nil && result1 == sourceID ==> !source.Named && !target.Named && source.StructType.NumFields() == 0 && target.StructType.NumFields() == 0
 //@   requires@C13 self != nil
 //@   requires@C13 GenInv(gen) && GenCtx(gen, ctx)
 //@   ensures@C13 GenInv(gen) && GenCtx(gen, ctx)
@@ -484,6 +500,13 @@ package builder
 //@ func Struct.Assign(gen, ctx, assignTo, sourceID, source, target, errPath)
 //@   props C03
 //@   propagates
+// C01/C03: a target field is only written when it is accessible from the output package
+//@   at@C01 call gen.Assign#1 assert xtype.Accessible(targetField, ctx.OutputPackagePath)
+//@   at@C01 call gen.CallMethod#1 assert xtype.Accessible(targetField, ctx.OutputPackagePath)
+// C05: ignored fields and (with ignoreUnexported) unexported fields produce no statement
+//@   at@C05 call gen.Assign#1 assert !fieldMapping.Ignore && (targetField.Exported() || !ctx.Conf.IgnoreUnexported)
+//@   at@C05 call gen.CallMethod#1 assert !fieldMapping.Ignore && (targetField.Exported() || !ctx.Conf.IgnoreUnexported) && arg1 == fieldMapping.Function
+//@   at@C05 call mapField#* assert !fieldMapping.Ignore && arg2 == targetField
 // C07: every nested conversion of a field gets the path extended by exactly that TARGET field name
 //@   at@C07 call gen.Assign#1 assert len(arg5) == len(errPath) + 1 && (forall j int :: 0 <= j && j < len(errPath) ==> arg5[j] == errPath[j])
 //@           && dynIs[errElmField](arg5[len(errPath)]) && string(unboxed[errElmField](arg5[len(errPath)])) == targetField.Name()
@@ -502,6 +525,8 @@ package builder
 //@ func List.Build(gen, ctx, sourceID, source, target, errPath)
 //@   props C03
 //@   propagates
+// C04: the source expression itself is only passed through where that is allowed
+//@   ensures@C04 err == nil && result1 == sourceID ==> false
 //@   requires@C13 self != nil
 //@   requires@C13 GenInv(gen) && GenCtx(gen, ctx)
 //@   ensures@C13 GenInv(gen) && GenCtx(gen, ctx)
@@ -523,6 +548,8 @@ package builder
 //@ func Map.Build(gen, ctx, sourceID, source, target, errPath)
 //@   props C03
 //@   propagates
+// C04: the source expression itself is only passed through where that is allowed
+//@   ensures@C04 err == nil && result1 == sourceID ==> false
 //@   requires@C13 self != nil
 //@   requires@C13 GenInv(gen) && GenCtx(gen, ctx)
 //@   ensures@C13 GenInv(gen) && GenCtx(gen, ctx)
@@ -559,8 +586,8 @@ package builder
 
 //@ func MethodContext.Field
 //@   props C05
+//@   pure
 //@   requires@C13 MethodOK(ctx) && target != nil
-//@   assigns nothing
 //@   ensures ctx.FieldsTarget != target.String ==> result == emptyMapping
 //@   ensures ctx.FieldsTarget == target.String && has(ctx.Conf.Fields, name) ==> result == ctx.Conf.Fields[name]
 //@   ensures ctx.FieldsTarget == target.String && !has(ctx.Conf.Fields, name) ==> result == emptyMapping
@@ -575,3 +602,14 @@ package builder
 //@   ensures ctx.FieldsTarget == target.String ==> isFresh(result)
 //@   loop 1 invariant forall k string :: has(f, k) == has(seen, k)
 //@   loop 1 invariant same(keys(ctx.Conf.Fields), old(keys(ctx.Conf.Fields))) && isFresh(f)
+
+//@ func MethodContext.HasSeen
+//@   props C13
+//@   pure
+//@   requires@C13 ctx != nil && source != nil
+//@   ensures result == (source.Named && has(ctx.SeenNamed, source.NamedType.String()))
+
+//@ func MethodContext.MarkSeen
+//@   props C13
+//@   requires@C13 ctx != nil && source != nil && ctx.SeenNamed != nil
+//@   assigns map(ctx.SeenNamed)
